@@ -99,6 +99,25 @@ def run(run: Run):
                 vm[j] = gen.vmember(mems[j], n + len(derived) - 1)
                 verifies.append({"mode": amode, "vmembers": vm})
                 tags.append(("attack", i, j, k))
+        # three or more members whose defects follow an integer RELATION among the observed weights (the shortest one, by exact lattice reduction):
+        # a weight derivation with algebraic structure (weights in a progression, a common factor, ...) keeps such a relation whatever the responses are,
+        # and the defects then cancel although every weight did change with them
+        if 3 <= n:
+            from lib import lll
+            for idxs in ([0, 1, 2], sorted(rng.sample(range(n), 3))) + ((sorted(rng.sample(range(n), 4)),) if n >= 4 else ()):
+                rel = lll.short_relation([ws[q] for q in idxs], L)
+                if sum(c * ws[q] for c, q in zip(rel, idxs)) % L != 0 or sum(1 for c in rel if c % L) < 2:
+                    continue
+                k = rng.randrange(T)
+                t = gen.rscalar(rng)
+                vm = list(base_vm)
+                for q, c in zip(idxs, rel):
+                    if c % L == 0:
+                        continue
+                    derived.append({"from": q, "ops": [{"op": "scalar_add", "field": "d1", "idx": k, "hex": gen.hx((c * t) % L)}]})
+                    vm[q] = gen.vmember(mems[q], n + len(derived) - 1)
+                verifies.append({"mode": amode, "vmembers": vm})
+                tags.append(("relation", list(idxs), max(abs(c) for c in rel).bit_length(), k))
         # equal-and-opposite without weights (what cancels if all weights are equal)
         t = gen.rscalar(rng)
         derived.append({"from": 0, "ops": [{"op": "scalar_add", "field": "d1", "idx": T - 1, "hex": gen.hx(t)}]})
@@ -125,7 +144,14 @@ def run(run: Run):
         for vi, (tag, vs, vo) in enumerate(zip(s["_tags"], s["verifies"], o["verifies"])):
             rp = {"kind": "session", "spec": sessions.strip(s), "verify": vi, "weights_observed_on_honest_run": [gen.hx(w) for w in ws]}
             res = vo["result"]
-            if tag[0] in ("attack", "plain +-delta"):
+            if tag[0] == "relation":
+                run.count(["relation", n, s["_T"], len(tag[1]), "short" if tag[2] <= 64 else "generic", res.split(":")[0]],
+                          {"attack": "defects following the shortest integer relation among the observed weights", "members": tag[1], "coefficient_bits": tag[2], "coordinate": tag[3], "result": res[:60]})
+                run.bump("relation attack")
+                if res == "ok":
+                    run.violation(f"batch with {len(tag[1])} individually invalid proofs accepted: defects on d1[{tag[3]}] of proofs {tag[1]} follow an integer relation "
+                                  f"(coefficients up to {tag[2]} bits) among the weights of the honest run, and the weights of the altered batch satisfy it too", rp)
+            elif tag[0] in ("attack", "plain +-delta"):
                 run.count([tag[0], n, s["_T"], tag[3], res.split(":")[0]], {"attack": tag[0], "pair": [tag[1], tag[2]], "coordinate": tag[3], "result": res[:60]})
                 run.bump(tag[0])
                 if res == "ok":
